@@ -81,3 +81,20 @@ package martianhttp
 //@   ensures[reset-reaches-the-installed-response-modifier] ite(typeis(m.resmod, verify.ResponseVerifier), m.resmod.gUnmetRes, 0) == 0
 //@   at call 0 of ResetResponseVerifications before assert[reset-excludes-traffic-inside-the-tree] m.mu.wheld
 //@   ensures[lock-released] modIdle(m)
+
+// C12 / C13: traffic runs the installed tree while holding the holder's read lock, so that a reconfiguration or a reset
+// (which take the write lock) never overlaps an exchange inside the tree.
+//@ func (*Modifier).ModifyRequest
+//@   serves C12 C13
+//@   requires modIdle(m) && req != nil
+//@   modifies m.mu.rheld, nReq, reqSeq, lastReqErr, http.Request.*, url.URL.*, martian.Session.hijacked, martian.Context.skipRoundTrip, martian.Context.skipLogging, martian.Context.apiRequest
+//@   noframe
+//@   at call 0 of ModifyRequest before assert[the-tree-runs-under-the-read-lock] m.mu.rheld > 0 && self == m.reqmod
+//@   ensures[lock-released] modIdle(m)
+//@ func (*Modifier).ModifyResponse
+//@   serves C12 C13
+//@   requires modIdle(m) && res != nil
+//@   modifies m.mu.rheld, nRes, resSeq, lastResErr, http.Response.*, martian.Session.hijacked, martian.Context.skipRoundTrip, martian.Context.skipLogging, martian.Context.apiRequest
+//@   noframe
+//@   at call 0 of ModifyResponse before assert[the-tree-runs-under-the-read-lock] m.mu.rheld > 0 && self == m.resmod
+//@   ensures[lock-released] modIdle(m)
